@@ -75,7 +75,10 @@ def shared(draw, ctx):
     lines += ["pool 0 kind=fifo access=mpmc", "xs 0 sched=default pools=0"]
     for p in range(1, nshared + 1):
         lines.append("pool %d kind=%s access=mpmc" % (p, draw(st.sampled_from(["fifo", "fifo", "randws"]))))
-    sk = draw(st.sampled_from(["basic", "basic", "prio", "randws"]))
+    # a resumer polls (by yielding) until its suspender has announced the suspend: with two
+    # pools per scheduler that is only starvation-free if both sit in the same pool and the
+    # scheduler is not a work-stealing one (see Topo.poll_safe in gen/topo.py)
+    sk = draw(st.sampled_from(["basic", "basic", "prio", "randws"] if nshared == 1 else ["basic", "prio"]))
     for i in range(1, nsec + 1):
         lines.append("xs %d sched=%s pools=%s" % (i, sk, ",".join(map(str, range(1, nshared + 1)))))
     lines += ["mutex 0", "eventual 0 nbytes=0"]
@@ -106,14 +109,15 @@ def shared(draw, ctx):
             prog = []
             for _ in range(rounds):
                 prog += ["susp"] + filler()
-            s = add(prog)
+            spool = sp()
+            s = add(prog, pool=spool)
             main.append("create %d" % s)
             rprog = []
             for _ in range(rounds):
                 rprog += ["resume %d" % s] + draw(st.sampled_from([[], ["work 2"], ["yield"]]))
             who = draw(st.sampled_from(["ult", "ult", "main", "ext"]))
             if who == "ult":
-                r = add(rprog, named=0, pool=draw(st.integers(0, nshared)))
+                r = add(rprog, named=0, pool=draw(st.sampled_from([0, spool])))
                 main.append("create %d" % r)
             elif who == "main":
                 tail += [x for x in rprog if x != "yield"]
